@@ -693,7 +693,9 @@ def stage_fragments(ctx: Ctx, progs):
     import fst
     for mode, (pre, post, ext, fam) in OPMODES.items():
         for op in ['+', '-', '*', '@', '/', '%', '**', '<<', '>>', '|', '^', '&', '//', 'and', 'or', 'not', '~', '==', '!=', '<', '<=', '>', '>=', 'is', 'is not', 'in',
-                   'not in', 'is  not', 'not  in', ' + ', '+ # c', '', '+ +', '=', ':=', 'if', 'is\\\nnot', '<>', '+=', '->']:
+                   'not in', 'is  not', 'not  in', ' + ', '+ # c', '', '+ +', '=', ':=', 'if', 'is\\\nnot', '<>', '+=', '->',
+                   # a backslash that is no line continuation is not trivia
+                   '+\\a', '+\\', '+ \\\n', 'and\\a', 'is \\a not', 'not in\\x', 'not\\\nin', '- \\ \n', '* # c \\\n']:
             try:
                 t_ = ast.parse(pre + op + post)
                 want = type(ext(t_)) if type(t_.body[0].value) is fam else None
